@@ -10,6 +10,12 @@ package main
 //	(1 dynty (iface..) #key val #typedname (la lb)) -> (anyfield anycalls typedfield equals) | (-1)
 //	(2 (#name #key val) (#name #key val) (la lb))   -> (r12 r21 r11 r22)   r: 0 false, 1 true, 2 panic
 //
+// Errors.  An error value is projected with everything an encoder can learn from it (c03EInfo: does
+// Error() panic, on a nil pointer or not; the message; the %+v text of a fmt.Formatter; the members of an
+// error group, recursively), and the recording encoder observes an error as the calls
+// zapcore.encodeError makes for the value zap hands it: "the caller's error" and "something that
+// forwards Error()" are different observations.
+//
 // Ambient state.  A Field is a value that is routinely encoded later than it is built (With,
 // WithLazy, buffering / sampling cores, zaptest/observer), and what the encoder then receives must
 // still be the value the caller supplied -- not something re-derived from a process global that has
@@ -148,7 +154,14 @@ func (g *c03gen) userValue(t reflect.Type) interface{} {
 			func() interface{} { return c03Err{c, f} }, func() interface{} { return reg(&c03ErrPS{c, f}) },
 			func() interface{} { return (*c03ErrPS)(nil) }, func() interface{} { return reg(c03ErrSl(sl())) },
 			func() interface{} { return c03ErrStr{c, f} }, func() interface{} { return c03ObjStrErr{c, f} },
-			func() interface{} { return c03ArrErr{c, f} }}
+			func() interface{} { return c03ArrErr{c, f} },
+			// errors that expose more than Error(): Formatters, groups, nil pointers / panicking Error methods
+			func() interface{} { return c03ErrFmt{c, f} }, func() interface{} { return c03ErrFmtSame{c, f} },
+			func() interface{} { return reg(&c03ErrFmtPS{c, f}) }, func() interface{} { return (*c03ErrFmtPS)(nil) },
+			func() interface{} { return c03ErrGroup{c, f} }, func() interface{} { return reg(c03ErrMulti(sl())) },
+			func() interface{} { return (*c03ErrV)(nil) }, func() interface{} { return reg(&c03ErrV{c, f}) },
+			func() interface{} { return (*c03ErrFmtV)(nil) }, func() interface{} { return reg(&c03ErrFmtV{c, f}) },
+			func() interface{} { return c03ErrPanic{c, f} }, func() interface{} { return reg(&c03ErrPanicPS{c, f}) }}
 	case c03StringerType:
 		opts = []func() interface{}{
 			func() interface{} { return c03Stringer{c, f} }, func() interface{} { return reg(&c03StringerPS{c, f}) },
@@ -164,6 +177,32 @@ func (g *c03gen) userValue(t reflect.Type) interface{} {
 			func() interface{} { return g.userValue(c03ErrorType) }, func() interface{} { return g.userValue(c03StringerType) }}
 	}
 	return opts[g.r.Intn(len(opts))]()
+}
+
+// Boundary values of the parameter type `error` (after nil): every way in which an error value can
+// expose more -- or less -- than an Error() string, each with comparable and uncomparable dynamic types:
+// plain errors; fmt.Formatter errors (a %+v form of their own; %+v equal to Error(); on the pointer);
+// error groups (empty; nil members; nested groups, nil-pointer members; a member whose Error()
+// panics; an uncomparable group that is also a Formatter); nil pointers whose Error method handles
+// nil, and nil pointers on which it cannot be called; Error methods that panic.
+func (g *c03gen) errorBoundaries() []func() interface{} {
+	reg := func(x interface{}) interface{} { c03Register(x); return x }
+	nan := math.NaN()
+	return []func() interface{}{
+		func() interface{} { return c03Err{1, 0} }, func() interface{} { return reg(&c03ErrPS{1, 0}) },
+		func() interface{} { return (*c03ErrPS)(nil) }, func() interface{} { return reg(c03ErrSl{2, 0}) },
+		func() interface{} { return c03ErrStr{1, 0} }, func() interface{} { return c03ObjStrErr{1, 0} },
+		func() interface{} { return c03ArrErr{1, 0} },
+		func() interface{} { return c03ErrFmt{1, 0} }, func() interface{} { return c03ErrFmtSame{1, 0} },
+		func() interface{} { return reg(&c03ErrFmtPS{2, 0}) }, func() interface{} { return (*c03ErrFmtPS)(nil) },
+		func() interface{} { return c03ErrGroup{0, 0} }, func() interface{} { return c03ErrGroup{1, 0} },
+		func() interface{} { return c03ErrGroup{2, 0} }, func() interface{} { return c03ErrGroup{3, 0} },
+		func() interface{} { return reg(c03ErrMulti{1, 0}) },
+		func() interface{} { return (*c03ErrV)(nil) }, func() interface{} { return reg(&c03ErrV{1, 0}) },
+		func() interface{} { return (*c03ErrFmtV)(nil) }, func() interface{} { return reg(&c03ErrFmtV{3, 0}) },
+		func() interface{} { return c03ErrPanic{1, 0} }, func() interface{} { return reg(&c03ErrPanicPS{2, 0}) },
+		func() interface{} { return c03ErrFmt{2, nan} }, func() interface{} { return reg(c03ErrMulti{3, nan}) },
+	}
 }
 
 func c03IsKf(x interface{}) bool {
@@ -198,7 +237,8 @@ func (g *c03gen) anyScalar() interface{} {
 		[]int{1, -2}, []string{"a", ""}, []bool(nil), []float64{math.NaN()}, []time.Duration{1, 2}, []uint8{1, 2}, []int32{math.MinInt32},
 		c03PtrTo(int(11)), c03PtrTo(true), c03PtrTo("p"), c03PtrTo(time.Duration(12)), c03PtrTo(float64(1.25)), c03PtrTo(uint8(13)), c03PtrTo(complex64(complex(1, 2))),
 
-		[]error{c03Err{1, 0}, nil}, []zapcore.Field{zap.Int("i", 1), zap.String("s", "x")}}
+		[]error{c03Err{1, 0}, nil}, []zapcore.Field{zap.Int("i", 1), zap.String("s", "x")},
+		[]error{nil, c03ErrFmt{1, 0}, c03ErrGroup{2, 0}, (*c03ErrV)(nil)}}
 	return opts[g.r.Intn(len(opts))]
 }
 
@@ -450,7 +490,11 @@ func (g *c03gen) value(t reflect.Type, idx int) (v c03v, ok bool) {
 		}
 		return c03v{rv: s, sx: c03VSlice(s, sxs), nt: hi > lo, kf: kf}, true
 	case reflect.Interface:
-		if idx > 14 {
+		var directed []func() interface{}
+		if t == c03ErrorType {
+			directed = g.errorBoundaries()
+		}
+		if (directed == nil && idx > 14) || (directed != nil && idx > len(directed)) {
 			return v, false
 		}
 		rv := reflect.New(t).Elem()
@@ -459,7 +503,12 @@ func (g *c03gen) value(t reflect.Type, idx int) (v c03v, ok bool) {
 			return c03v{rv: rv, sx: c03VNil(), nt: false}, true
 		}
 		var x interface{}
-		if t == c03AnyType && (idx%3 == 2 || (idx < 0 && r.Chance(35))) {
+		if directed != nil && idx >= 1 {
+			x = directed[idx-1]()
+		} else if t == c03AnyType && idx >= 0 && idx%3 == 0 { // an error under `any`: every boundary error in turn
+			eb := g.errorBoundaries()
+			x = eb[[]int{7, 13, 16, 20, 15}[(idx/3-1)%5]]() // Formatter, group, nil pointer, panicking Error, uncomparable group
+		} else if t == c03AnyType && (idx%3 == 2 || (idx < 0 && r.Chance(35))) {
 			x = g.anyScalar()
 		} else {
 			x = g.userValue(t)
@@ -496,7 +545,16 @@ func (g *c03gen) field(idx int) c03built {
 	case 5:
 		return c03built{f: zap.Time(key, time.Unix(0, int64(r.Next())).UTC())}
 	case 6:
-		return c03built{f: zap.NamedError(key, c03Err{int64(r.Intn(3)), 0})}
+		c := int64(r.Intn(4))
+		switch r.Intn(4) {
+		case 0:
+			return c03built{f: zap.NamedError(key, c03ErrFmt{c, 0})}
+		case 1:
+			return c03built{f: zap.NamedError(key, c03ErrGroup{c, 0})}
+		case 2:
+			return c03built{f: zap.Errors(key, []error{c03ErrFmt{c, 0}, nil, (*c03ErrV)(nil)})}
+		}
+		return c03built{f: zap.NamedError(key, c03Err{c, 0})}
 	case 7:
 		return c03built{f: zap.Reflect(key, nil)}
 	case 8:
@@ -901,7 +959,19 @@ func c03(c *Ctx) {
 	}
 	// 3. Field.Equals on pairs: a field with itself, with a field rebuilt from the same input, with
 	// another value of the same constructor, with a field of another constructor under the same key
+	skippedRepr := 0
 	emitPair := func(a, b c03made, class string) {
+		// The value model identifies a time.Time with (instant, Location()).  Go's == on time.Time also
+		// sees the internal representation: a UTC time holds a nil *Location after t.UTC() / t.In(time.UTC)
+		// and a non-nil one when it comes from time.Unix / time.Now while time.Local points to UTC.  Where a
+		// Field holds the time.Time itself (instants outside the int64-nanosecond range; Reflect) two inputs with the
+		// same projection that are not the same Go value are not "equal inputs" for ==, but the oracle could
+		// not tell: such a pair is not emitted (counted in the info line time_repr_pairs_skipped).  Times
+		// inside the range travel as (UnixNano, Location()) and are compared whatever their representation.
+		if a.v.rv.IsValid() && b.v.rv.IsValid() && Render(a.triple()) == Render(b.triple()) && c03TimeReprDiffers(a.v.rv, b.v.rv) {
+			skippedRepr++
+			return
+		}
 		in := L(I(2), a.triple(), b.triple(), L(I(a.la), I(b.la)))
 		meta := map[string]string{"class": "equals:" + class, "nt": "1"}
 		if a.v.kf || b.v.kf {
@@ -975,8 +1045,41 @@ func c03(c *Ctx) {
 		}
 		emitPair(a, b, "cross")
 	}
+	c.Info("time_repr_pairs_skipped", fmt.Sprint(skippedRepr))
 	c.Info("constructors", fmt.Sprint(len(genC03Ctors)))
 	c.Info("user_types", fmt.Sprint(len(c03UserTypeIDs)))
+}
+
+// do two values of the same shape hold, at the same place, time.Time values that a Field stores as
+// time.Time (instants outside the int64-nanosecond range; any time under an interface-typed
+// parameter: Reflect, generic `any`) and that are not == ?
+func c03TimeReprDiffers(a, b reflect.Value) bool { return c03TimeReprDiffers1(a, b, false) }
+
+func c03TimeReprDiffers1(a, b reflect.Value, underIface bool) bool {
+	if !a.IsValid() || !b.IsValid() || a.Type() != b.Type() {
+		return false
+	}
+	if a.Type() == c03TimeType {
+		ta, tb := a.Interface().(time.Time), b.Interface().(time.Time)
+		return ta != tb && (underIface || ta.Before(time.Unix(0, math.MinInt64)) || ta.After(time.Unix(0, math.MaxInt64)))
+	}
+	switch a.Kind() {
+	case reflect.Ptr, reflect.Interface:
+		if a.IsNil() || b.IsNil() {
+			return false
+		}
+		return c03TimeReprDiffers1(a.Elem(), b.Elem(), underIface || a.Kind() == reflect.Interface)
+	case reflect.Slice:
+		if a.Len() != b.Len() {
+			return false
+		}
+		for i := 0; i < a.Len(); i++ {
+			if c03TimeReprDiffers1(a.Index(i), b.Index(i), underIface) {
+				return true
+			}
+		}
+	}
+	return false
 }
 
 func perCtorOrdered(m map[string][]c03made) [][]c03made {
